@@ -797,6 +797,15 @@ func suspicious(r *result) bool {
 	return len(r.rec.calls) > 0 && r.ret > maxDl+slack/2
 }
 
+// how long to wait for lura's goroutines to go away: generous until a leak has been pinned on
+// a case, short afterwards (the violation is on record; later waits only cost time)
+func (rn *runner) leakBound() time.Duration {
+	if rn.attributed > 0 {
+		return 600 * time.Millisecond
+	}
+	return 4500 * time.Millisecond
+}
+
 // a request to run: through a fresh instance (in == nil) or through a given one
 type job struct {
 	in *instance
@@ -846,11 +855,7 @@ func (rn *runner) runJobs(jobs []job) []*result {
 			r.tainted = true
 		}
 	}
-	bound := 5 * time.Second
-	if rn.serialLeft <= 0 && rn.attributed > 0 {
-		bound = time.Second // leaks are already on record with the cases that cause them
-	}
-	left := quiesce(rn.ignore, bound)
+	left := quiesce(rn.ignore, rn.leakBound())
 	for _, r := range res {
 		r.leaked = unclosedBodies(r.rec)
 	}
@@ -867,7 +872,7 @@ func (rn *runner) runJobs(jobs []job) []*result {
 			}
 			rn.serialLeft--
 			r := runCase(specs[i])
-			l := quiesce(rn.ignore, 1500*time.Millisecond)
+			l := quiesce(rn.ignore, rn.leakBound()/3)
 			for _, id := range l {
 				rn.ignore[id] = true
 			}
@@ -996,7 +1001,7 @@ func (rn *runner) runSequences(specs []spec, idxs []int) map[int]*result {
 		// goroutines stayed behind: every sequence again, alone, so that what stays behind is
 		// pinned on the request that left it
 		for _, id := range order {
-			if time.Since(start) > 2*rn.rerunBudget {
+			if time.Since(start) > rn.rerunBudget*2/3 {
 				break
 			}
 			run([]int{id})
@@ -1055,7 +1060,7 @@ func (rn *runner) runConcurrent(specs []spec, idxs []int) map[int]*result {
 			time.Sleep(200 * time.Microsecond)
 		}
 		stalled := hbMax.Load() > int64(stallLimit)
-		left := quiesce(rn.ignore, 5*time.Second)
+		left := quiesce(rn.ignore, rn.leakBound())
 		for _, id := range left {
 			rn.ignore[id] = true
 		}
@@ -1132,6 +1137,7 @@ func childMain(cfg out.Config, specs []spec, from int, rn *runner) {
 			if specs[i].stress > 0 {
 				if n := runStress(specs[i]); n > 0 {
 					stressLeft[i] = n
+					rn.attributed++
 					for _, id := range luraGoroutines(rn.ignore) {
 						rn.ignore[id] = true // on record with this case; not to be counted again
 					}
